@@ -15,9 +15,9 @@ import (
 	"time"
 
 	"github.com/anishathalye/porcupine"
-	"golang.org/x/net/ipv4"
 	"github.com/scionproto/scion/pkg/addr"
 	"github.com/scionproto/scion/pkg/slayers"
+	"golang.org/x/net/ipv4"
 
 	"example.com/scion-time/core/server"
 	"example.com/scion-time/net/ntp"
